@@ -187,8 +187,34 @@ def shard_derived(args):
     return acc.export()
 
 
+def shard_exotic(args):
+    tier, seed, idx = args
+    from curtsies.formatstring import FmtStr
+
+    acc = Acc(seed=seed)
+    specs = C.exotic_specs()
+    for si in range(idx, len(specs), 8):
+        spec = specs[si]
+        f = C.build(spec)
+        want = C.spec_cells(spec)
+        case = {"kind": "derived_roundtrip", "f": C.show_spec(spec), "op": "exotic value"}
+        acc.case(True, key=("x", si), sample=case)
+        for rnd in range(2):
+            try:
+                got = C.cells(FmtStr.from_str(str(f)))
+            except Exception as ex:  # noqa
+                acc.failure("C05:roundtrip_raises:" + type(ex).__name__, case, repr(ex))
+                break
+            if got != want:
+                acc.failure("C05:roundtrip_formatting" if [c for c, _ in got] == [c for c, _ in want] else "C05:roundtrip_text", case, "got %r" % (got[:30],))
+                break
+    return acc.export()
+
+
 def run(ctx):
     rep = Report()
+    for d in ctx.pmap(shard_exotic, [(ctx.tier, ctx.seed, i) for i in range(8)]):
+        rep.merge(d, "long_and_exotic_values")
     for d in ctx.pmap(shard_long_params, [(ctx.tier, ctx.seed, i) for i in range(4)]):
         rep.merge(d, "grammar_long_parameter_lists")
     for d in ctx.pmap(shard_derived, [(ctx.tier, ctx.seed, i) for i in range(64)]):
